@@ -55,6 +55,9 @@ def gen(rng, tier):
                 if line is None:
                     continue
                 cs.append(Case(line, cls="%s/%s" % (f, cname), expect=totality, meta={"why": "not Ok/Err on attacker bytes"}))
+    # authentic boxes of a length the PEER chooses, opened into a fixed receive buffer that is longer than the message
+    for n in (0, 1, 15, 16, 17, 40, 100):
+        cs.extend(oversized_authentic(Inst(rng, n, style=n), (1, 64, 200)))
     # stream pull, classic and object: literal byte strings of every length, and authentic messages with every tag byte
     for api in ("classic", "object", "mixed"):
         key, hdr = rbytes(rng, 32), rbytes(rng, 24)
@@ -83,6 +86,11 @@ def gen(rng, tier):
     for L in (64 * (2 ** 32 - 3) + 1, 64 * (2 ** 32 - 3) + 32, 64 * (2 ** 32 - 2), 64 * (2 ** 32 - 2) + 1, 2 ** 39):
         cs.append(Case("stream_huge push %d" % L, cls="stream-huge/push", expect=totality,
                        meta={"no_sodium": True, "no_spec": True, "alloc_bound": 1 << 20, "why": "push of a %d-byte message (aliased buffers) must be Ok or Err" % L}))
+    # forged ciphertexts at and past 2 GiB (all-zero bytes in an aliased buffer): every length computation on the way to the
+    # authenticator comparison must hold for them (Err from both libraries, not a panic)
+    for L in ((2 ** 31 + 5,) if tier == "quick" else (2 ** 31 - 17, 2 ** 31 - 1, 2 ** 31 + 5, 2 ** 32 - 17, 2 ** 32 + 5)):
+        cs.append(Case("stream_huge pullforged %d" % L, cls="stream-huge/pull-forged", expect=totality,
+                       meta={"no_spec": True, "alloc_bound": 1 << 20, "why": "pull of a forged %d-byte message (aliased buffers) must be Err" % L}))
     if tier == "thorough":
         # an honest libsodium sender's message of the smallest critical length, opened by dryoc (libsodium's push over 256 GiB: minutes)
         cs.append(Case("stream_huge pull %d" % (64 * (2 ** 32 - 3) + 1), cls="stream-huge/pull", expect=totality,
